@@ -662,6 +662,18 @@ def probes(ck):
             report(ck, {"parent-ref-docref-added"}, f"PARENT-REF with DOCTYPE LAYER: {db_diff(db, db2)}", {"probe": "parent-docref-layer"})
     except Exception as e:  # noqa
         ck.note_broken(f"probe parent-docref-layer: {type(e).__name__}: {e}")
+    # 2c. free text which spans several lines (special data, descriptions): the writer indents every macro output, which
+    # re-indents the continuation lines of the text itself
+    k2c = k2.replace('<SHORT-NAME>A</SHORT-NAME>', '<SHORT-NAME>A</SHORT-NAME><SDGS><SDG><SD SI="note">first line\nsecond line</SD></SDG></SDGS>', 1)
+    try:
+        db = hc.load_docs([k2c])
+        ck.count(("probe", "multiline-text"))
+        db2, err, info = roundtrip(db, "probe")
+        d = None if err else db_diff(db, db2)
+        if err or d:
+            report(ck, {"multiline-text-indented"}, f"special data whose text spans two lines: {err or d}", {"probe": "multiline-text"})
+    except Exception as e:  # noqa
+        ck.note_broken(f"probe multiline-text: {type(e).__name__}: {e}")
     # 3. diagnostic variables: the template which writes them has never worked
     try:
         db = hc.load_docs([open(os.path.join(os.path.dirname(os.path.abspath(__file__)), "c11_diagvar.xml")).read()])
